@@ -204,7 +204,10 @@ def sweep_lists(ctx, pr, cases, exact, cov, dist):
             # parse back (real parser in process; Lean parser in the model)
             ib, mb = names["pback " + kind], mnames["pback " + kind]
             # (`ub:` / `diverge` = the parser model's recorded defects D18/D25, C01/C15's concern and probed there)
-            if ib.split()[:2] != mb.split()[:2] and not mb.startswith(("ub:", "diverge")):
+            # outside the round trip's domain (names with brackets etc.) the two parsers are compared by C01/C15 only:
+            # what they do with stray brackets depends on the parser's defect switches (D22), probed there
+            if ib.split()[:2] != mb.split()[:2] and not mb.startswith(("ub:", "diverge")) and \
+                    not (meta_name(recs) or meta_prefix(recs)):
                 ctx.disagreement("print model (Lean parser) vs hostlist_create on the printed text (%s)" % kname(kind),
                                  "impl `%s` model `%s`" % (ib[:200], mb[:200]), case)
             if not (c["origin"] == "raw" and empty_name):
